@@ -9,6 +9,18 @@
 //            (Albers); k = k1 on the standard parallels; equivalent constructors give the same map;
 //            SetScale gives the requested scale and leaves a consistent projection
 //   contract: documented exceptions for inadmissible parameters
+//   hook   : GEOGRAPHICLIB_PANIC (convergence failure) events raised inside constructor / Forward / Reverse
+//
+// Tolerance model (documented figure x K_safety 4, in the author's error measure):
+//   position: ground distance = map error / local scale (Albers: E-W / k, N-S * k), 10 nm x 4 x a/a_WGS84 x eccfac with
+//             eccfac = max(1, (1-f)^2, (1-f)^-2); Albers map coordinates carry a representation/conditioning floor
+//             (PtScope) because the equal-area map shrinks N-S lengths by 1/k (one ulp of y = k ulps on the ground);
+//   k, gamma: 10 nm / a_WGS84 x 4 x eccfac, times (1+|ln k/k0|) resp. (1+|gamma|) (k = exp(n psi)/m, gamma = n lam);
+//   lat0, k0: documented 4.5e-14 deg / 7e-15 x 4 x eccfac inside the documented domain of the two-parallel constructors;
+//   points whose REF scale exceeds 1e8 (poles of non-polar cones) are judged by round trip only.
+// Violation keys: <family>:C11/<projection>/[after-SetScale/]<monitor>/<sphere|oblate|prolate>; configurations or points in
+// an INPUT regime with an identified defect mechanism report every monitor under regime:C11/<projection>/<regime>
+// (see build() and PtScope; the monitor name is in the witness), so that one mechanism = one key.
 #include <GeographicLib/PolarStereographic.hpp>
 #include <GeographicLib/LambertConformalConic.hpp>
 #include <GeographicLib/AlbersEqualArea.hpp>
@@ -40,10 +52,10 @@ static const char* PKN[] = {"lcc", "albers", "polarstereo"};
 // ------------------------------------------------------------------------------ ellipsoids
 struct EllCfg { double a, f; std::string cls, grp, kind; bool extreme; };
 static EllCfg mk_ell(double a, double f) {
-  EllCfg e; e.a = a; e.f = f; e.extreme = (1 - f) > 3 || (1 - f) < 0.2;
+  EllCfg e; e.a = a; e.f = f; e.extreme = (1 - f) > 3 || (1 - f) < 0.45;
   double af = std::fabs(f);
   e.kind = f == 0 ? "sphere" : (f > 0 ? "oblate" : "prolate");
-  if (e.extreme) { e.cls = f > 0 ? "oblate-extreme(b/a<0.2)" : "prolate-extreme(b/a>3)"; e.grp = "extreme"; }
+  if (e.extreme) { e.cls = f > 0 ? "oblate-extreme(b/a<0.45)" : "prolate-extreme(b/a>3)"; e.grp = "extreme"; }
   else if (f == 0) { e.cls = "sphere"; e.grp = "|f|<=0.011"; }
   else if (af <= 1e-6) { e.cls = e.kind + "-nearly-spherical"; e.grp = "|f|<=0.011"; }
   else if (af <= 0.011) { e.cls = e.kind + "-earthlike"; e.grp = "|f|<=0.011"; }
@@ -55,7 +67,7 @@ static const double F_LADDER[] = {0, 1e-8, -1e-8, 1 / 298.257223563, 0.01, -0.01
 static const int NF = 10;
 static const double A_LADDER[] = {1, 6.4e6};
 static const double K_LADDER[] = {0.5, 0.994, 1, 3};
-static const double F_EXTREME[] = {0.85, 0.92, 0.95, -2.5, -4};
+static const double F_EXTREME[] = {0.6, 0.75, 0.85, 0.92, 0.95, -2.5, -4};
 
 static EllCfg gen_ell(vh::Rng& r) {
   double f, a;
@@ -64,7 +76,7 @@ static EllCfg gen_ell(vh::Rng& r) {
   case 6: f = r.sign() * r.logu(1e-12, 0.3); break;
   case 7: f = r.uniform(-1, 0.5); break;
   case 8: f = r.uniform(0.003, 0.0036); break;
-  default: f = r.uniform(-2, 0.8); break;       // b/a in [0.2, 3]
+  default: f = r.coin(0.7) ? r.uniform(-2, 0) : r.uniform(0, 0.55); break;      // b/a in [0.45, 3]
   }
   a = r.coin(0.6) ? r.pick(A_LADDER) : r.logu(0.1, 1e8);
   return mk_ell(a, f);
@@ -173,20 +185,29 @@ struct Model {
   // that lie in an input regime with a known defect mechanism (decided from the INPUTS only, see regime_of) report every
   // monitor under the single key regime:C11/<projection>/<regime>; the monitor name goes into the witness.
   mutable double nsfloor = 0;     // Albers: representation + conditioning floor of the N-S map coordinate at the current point
-  bool hardregime = false; mutable double ewfloor = 0;
+  bool hardregime = false; mutable double ewfloor = 0, Rpt = 0;
   std::string regime; mutable std::string ptregime;      // configuration-level / point-level regime
   std::string key(const std::string& fam, const std::string& what) const {
     if (!regime.empty() && (hardregime || ptregime.empty())) return std::string("regime:C11/") + PKN[pk] + "/" + regime;
     if (!ptregime.empty()) return std::string("regime:C11/") + PKN[pk] + "/" + ptregime;
     return fam + ":C11/" + PKN[pk] + "/" + kpre + what + "/" + e.kind; }
+  // observed maxima of configurations / points inside a known-defect input regime are kept apart, so that the
+  // regular lines show the calibration of the tolerances
+  void obs(Ctx& c, const std::string& n, double v, const J& j) const {
+    c.obs((!regime.empty() || !ptregime.empty()) ? n + " [inside a known-defect input regime]" : n, v, j); }
   void viol(Ctx& c, const std::string& fam, const std::string& what, const std::string& cls, const J& d) const {
     c.viol(key(fam, what), cls, J(d).str("monitor", fam + ":" + kpre + what)); }
+  mutable uint64_t npanic = 0, ctor_panic = 0;      // GEOGRAPHICLIB_PANIC events (repo hook) seen in Forward/Reverse resp. the constructor
   void fwd(double lon0, double lat, double lon, double& x, double& y, double& g, double& k) const {
+    uint64_t p0 = vh::hook::panics(); fwd_(lon0, lat, lon, x, y, g, k); npanic += vh::hook::panics() - p0; }
+  void rev(double lon0, double x, double y, double& lat, double& lon, double& g, double& k) const {
+    uint64_t p0 = vh::hook::panics(); rev_(lon0, x, y, lat, lon, g, k); npanic += vh::hook::panics() - p0; }
+  void fwd_(double lon0, double lat, double lon, double& x, double& y, double& g, double& k) const {
     if (pk == P_LCC) lccp->Forward(lon0, lat, lon, x, y, g, k);
     else if (pk == P_ALB) albp->Forward(lon0, lat, lon, x, y, g, k);
     else psp->Forward(northp, lat, lon, x, y, g, k);
   }
-  void rev(double lon0, double x, double y, double& lat, double& lon, double& g, double& k) const {
+  void rev_(double lon0, double x, double y, double& lat, double& lon, double& g, double& k) const {
     if (pk == P_LCC) lccp->Reverse(lon0, x, y, lat, lon, g, k);
     else if (pk == P_ALB) albp->Reverse(lon0, x, y, lat, lon, g, k);
     else psp->Reverse(northp, x, y, lat, lon, g, k);
@@ -212,15 +233,15 @@ static int build(Model& M, PK pk, const EllCfg& e, const ParCfg& par, double k1,
   expect_throw = false;
   // input regimes with a known defect mechanism (decided from the inputs only)
   M.regime.clear(); M.hardregime = false;
-  if (e.extreme) { M.regime = "extreme-eccentricity(b/a<0.2-or->3)"; M.hardregime = true; }
+  if (e.extreme) { M.regime = "extreme-eccentricity(b/a<0.45-or->3)"; M.hardregime = true; }
   else if (pk != P_PS) {
     SC q1 = par.p1(), q2 = par.p2(); bool distinct = !refp::same(q1, q2);
     Q cmin = q1.c < q2.c ? q1.c : q2.c, cmax = q1.c < q2.c ? q2.c : q1.c; (void)cmax;
     if (pk == P_LCC) {
-      if ((q1.c > 0 && q1.c < 1e-15Q) || (q2.c > 0 && q2.c < 1e-15Q)) M.regime = "near-polar-parallel(0<cos<1e-15)";
-      else if (distinct && (((e.f > 0.25 || e.f < -0.5) && cmin < 0.05Q) || (std::fabs(e.f) > 0.005 && cmin < 1e-6Q)))
+      if ((q1.c > 0 && q1.c < 1e-13Q) || (q2.c > 0 && q2.c < 1e-13Q)) M.regime = "near-polar-parallel(0<cos<1e-13)";
+      else if (distinct && ((e.f > 0.25 && cmin < 0.1Q) || (e.f < -0.5 && cmin < 0.05Q) || (std::fabs(e.f) > 0.005 && cmin < 1e-6Q)))
         // the documented accuracy of lat0 (4.5e-14 deg) is reached for |f| <~ 0.005 only; it degrades roughly like f^2/colatitude
-        M.regime = "eccentric-near-polar-pair(|f|>0.005&cos<1e-6|f>0.25&cos<0.05|f<-0.5&cos<0.05)";
+        M.regime = "eccentric-near-polar-pair(|f|>0.005&cos<1e-6|f>0.25&cos<0.1|f<-0.5&cos<0.05)";
       else if (distinct && 1 - M.E.e2 * q1.s * q2.s <= 0) M.regime = "prolate-opposite-hemisphere-parallels(1-e2*sin1*sin2<=0)";
     } else {
       if (distinct && q1.c == 0) { M.regime = "first-parallel-at-pole"; M.hardregime = true; }
@@ -235,6 +256,7 @@ static int build(Model& M, PK pk, const EllCfg& e, const ParCfg& par, double k1,
   else if (pk == P_ALB) { M.ra.reset(new refp::Albers(M.E, par.p1(), par.p2(), k1)); expect_throw = !M.ra->ok; }
   else M.rp.reset(new refp::PolarStereo(M.E, k1));
   M.docdomain = in_doc_domain(M);
+  uint64_t hp0 = vh::hook::panics();
   if (!M.docdomain && M.regime.empty()) M.regime = "parallels-outside-documented-accuracy-domain";
   try {
     if (pk == P_LCC) {
@@ -249,6 +271,7 @@ static int build(Model& M, PK pk, const EllCfg& e, const ParCfg& par, double k1,
       M.albp = M.alb.get();
     } else { M.ps.reset(new PolarStereographic(e.a, e.f, k1)); M.psp = M.ps.get(); }
   } catch (const GeographicErr& ex) { what = ex.what(); return 1; }
+  M.ctor_panic = vh::hook::panics() - hp0;
   return 0;
 }
 
@@ -264,13 +287,16 @@ static double sent(int k) { return vh::sentinel(k); }
 // conformal: |d|/k.  Albers: E-W component / k, N-S component * k; the N-S component is first reduced
 // by the representation floor of the outputs (4 eps (|x|+|y|)): N-S map lengths are shrunk by 1/k, so
 // one ulp of y is k ulps on the ground -- this is conditioning of the equal-area map, not an error.
-static double ground_err(const Model& M, double dx, double dy, Q kq, Q gq, double x, double y) {
+static double ground_err(const Model& M, double dx, double dy, Q kq, Q gq, double /*x*/, double /*y*/) {
   double k = (double)kq;
+  // theta = n*lam carries a relative error of a few eps: the image moves by rho*|theta|*eps along the parallel (matters for
+  // Albers with k1^2 n0 > 1, where |theta| reaches 9 pi)
+  double thfl = 4 * EPS * std::fabs((double)gq) * M.Rpt;
   if (M.conformal()) return std::max(0.0, std::hypot(dx, dy) - M.ewfloor) / k;
   double g = (double)gq, cg = std::cos(g), sg = std::sin(g);
   double dE = dx * cg + dy * sg, dN = -dx * sg + dy * cg;
   dN = std::max(0.0, std::fabs(dN) - M.nsfloor);
-  dE = std::max(0.0, std::fabs(dE) - M.ewfloor);
+  dE = std::max(0.0, std::fabs(dE) - M.ewfloor - thfl);
   return std::hypot(dE / k, dN * k);
 }
 
@@ -305,8 +331,11 @@ struct PtScope {     // per-point state of the model (regime, N-S floor), cleare
     // representation / conditioning floors of the map coordinates (in map units)
     M.nsfloor = (16 + 4 * std::min(kap, 64.0)) * M.eccfac() * EPS * (std::fabs(x) + std::fabs(y) + Rr);
     M.ewfloor = 8 * M.eccfac() * EPS * (std::fabs(x) + std::fabs(y) + Rr);
+    M.Rpt = Rr;
   }
   ~PtScope() { M.ptregime.clear(); M.nsfloor = 0; M.ewfloor = 0; }
+  // convergence failures (repo hook) seen since the last check; reported while the point regime is still set
+  void panics(Ctx& c, const std::string& cls, const J& wit) { if (M.npanic) { M.viol(c, "hook", "convergence-failure-in-forward-or-reverse", cls, J(wit).u("panics", M.npanic)); M.npanic = 0; } }
 };
 
 struct PtRes { bool ok; double x, y, g, k; Out ref; };
@@ -342,7 +371,7 @@ static PtRes check_point(Ctx& c, const Model& M, double lat, double lon0, double
   if (judged) {
     double dx = (double)((Q)x - o.x), dy = (double)((Q)y - o.y);
     double ge = ground_err(M, dx, dy, o.k, o.gamma, x, y);
-    c.obs(grp + ": Forward vs REF, ground distance [nm at a=a_WGS84; tol " + std::to_string((int)TOL_NM) + "]", M.nm(ge), wit);
+    M.obs(c, grp + ": Forward vs REF, ground distance [nm at a=a_WGS84; tol " + std::to_string((int)TOL_NM) + "]", M.nm(ge), wit);
     if (!(ge <= M.tolm()) && M.pk == P_ALB && M.ra->p0.s < 0) {
       // diagnosis of one specific defect (kept under its own key): the image is that of the mirrored latitude
       SC pm = p; pm.s = -pm.s; Out om = M.rfwd(pm, lam);
@@ -355,15 +384,16 @@ static PtRes check_point(Ctx& c, const Model& M, double lat, double lon0, double
     // k = exp(n psi)/m: an absolute error of a few eps in the exponent is a relative error |ln(k/k0)| eps in k
     Q rk0 = M.pk == P_LCC ? M.rl->k0 : M.pk == P_ALB ? M.ra->k0 : M.rp->k0;
     double klog = 1 + std::fabs((double)logq(o.k / rk0));
-    double ek = (double)(fabsq((Q)k - o.k) / o.k), tk = M.tolrel() * klog + (M.pk == P_ALB ? 2 * std::min(albers_kappa(M, p), 64.0) * EPS : 0);
+    double ek = (double)(fabsq((Q)k - o.k) / o.k), tk = M.tolrel() * klog + (M.pk == P_ALB ? 4 * std::min(albers_kappa(M, p), 64.0) * EPS : 0);
     double eg = (double)fabsq(remainderq((Q)g - o.gamma / refp::DEGq, 360)) * DEG;
     if (edge && M.pk == P_PS) eg = std::min(eg, std::fabs(eg - 2 * M_PI));
     if (p.c == 0) eg = 0;
     bool doc = M.docdomain;
     std::string dom = doc ? "" : " (parallels outside documented domain: not judged)";
-    c.obs(grp + ": Forward k vs REF, relative error / tolerance [tol = 4 x 10nm/a_WGS84 x eccfac x (1+|ln k/k0|)]" + dom, ek / tk, wit);
-    double tg = M.tolrel() * (1 + (double)fabsq(o.gamma));       // gamma = n*lam reaches 9*pi for Albers with k1 = 3
-    c.obs(grp + ": Forward gamma vs REF [rad] / tolerance [tol = 4 x 10nm/a_WGS84 x eccfac x (1+|gamma|)]" + dom, eg / tg, wit);
+    M.obs(c, grp + ": Forward k vs REF, relative error / tolerance [tol = 4 x 10nm/a_WGS84 x eccfac x (1+|ln k/k0|)]" + dom, ek / tk, wit);
+    // n is a quotient of differences (an absolute error of a few eps when the parallels straddle the equator), times k1^2 for Albers
+    double tg = M.tolrel() * (1 + (double)fabsq(o.gamma)) + (M.pk == P_PS ? 0 : 8 * EPS * (double)fabsq(lam) * (M.pk == P_ALB ? std::max(1.0, M.k1 * M.k1) : 1));       // gamma = n*lam reaches 9*pi for Albers with k1 = 3
+    M.obs(c, grp + ": Forward gamma vs REF [rad] / tolerance [tol = 4 x 10nm/a_WGS84 x eccfac x (1+|gamma|)]" + dom, eg / tg, wit);
     if (doc) {
       if (!(ek <= tk)) M.viol(c, "oracle", "forward-scale", cls, J(wit).f("k", k).f("ref_k", (double)o.k).f("rel_err", ek).f("tol", tk));
       if (!(eg <= tg)) M.viol(c, "oracle", "forward-convergence", cls, J(wit).f("gamma", g).f("ref_gamma", (double)(o.gamma / refp::DEGq)).f("err_rad", eg).f("tol", M.tolrel()));
@@ -388,8 +418,8 @@ static PtRes check_point(Ctx& c, const Model& M, double lat, double lon0, double
         double gn = (double)M.E.rho_mer(p) * std::fabs(dphi), ge = (double)M.E.r_par(p) * std::fabs(dl);
         double err = std::hypot(gn, ge), tol = M.tolm();
         if (M.pk == P_ALB) tol += albers_cond(M, p, x, y);
-        c.obs(grp + ": Reverse(Forward) ground distance / tolerance [tol = " + std::to_string((int)TOL_NM) + " nm at a_WGS84" + (M.pk == P_ALB ? " + conditioning" : "") + "]", err / tol, J(wit).f("lat2", lat2).f("lon2", lon2));
-        if (M.pk != P_ALB) c.obs(grp + ": Reverse(Forward) ground distance [nm at a=a_WGS84]", M.nm(err), J(wit).f("lat2", lat2).f("lon2", lon2));
+        M.obs(c, grp + ": Reverse(Forward) ground distance / tolerance [tol = " + std::to_string((int)TOL_NM) + " nm at a_WGS84" + (M.pk == P_ALB ? " + conditioning" : "") + "]", err / tol, J(wit).f("lat2", lat2).f("lon2", lon2));
+        if (M.pk != P_ALB) M.obs(c, grp + ": Reverse(Forward) ground distance [nm at a=a_WGS84]", M.nm(err), J(wit).f("lat2", lat2).f("lon2", lon2));
         if (!(err <= tol)) M.viol(c, "law", "roundtrip", cls, J(wit).f("x", x).f("y", y).f("lat2", lat2).f("lon2", lon2).f("ground_err_nm_wgs84", M.nm(err)).f("tol_nm_wgs84", M.nm(tol)));
         // Reverse reports the same gamma and k as Forward did
         if (judged && std::fabs(dphi) <= 0.1 * (double)p.c) {      // (otherwise the returned latitude is too far, in relative colatitude, for k to be comparable)
@@ -398,11 +428,12 @@ static PtRes check_point(Ctx& c, const Model& M, double lat, double lon0, double
           if (p.c == 0) eg2 = 0;                 // at a pole the meridian direction is undefined
           // k is evaluated at the returned latitude: |d ln k / d phi| <~ 2 (1+|e2|)/cos(phi) times the (accepted) latitude difference
           double klog = 1 + std::fabs(std::log(k / (double)(M.pk == P_LCC ? M.rl->k0 : M.pk == P_ALB ? M.ra->k0 : M.rp->k0)));
-          double slack = M.tolrel() * 2 * klog + 2 * (1 + (double)fabsq(M.E.e2)) * std::fabs(dphi) / std::max((double)p.c, 1e-300), slackg = 2 * M.tolrel();
+          double slack = M.tolrel() * 2 * klog + 2 * (1 + (double)fabsq(M.E.e2)) * std::max(std::fabs(dphi), tol / (double)M.E.rho_mer(p)) / std::max((double)p.c, 1e-300)
+                         + (M.pk == P_ALB ? 8 * std::min(albers_kappa(M, p), 64.0) * EPS : 0), slackg = 2 * M.tolrel();
           // close to the apex of a cone rho = |(x, y - rho0)| is a small difference of the represented outputs; k ~ rho^(1-1/n)
           if (nq != 0 && M.pk != P_PS) { double Rr = (double)fabsq(o.k * M.E.r_par(p) / nq), rep = 8 * EPS * (std::fabs(x) + std::fabs(y)) / std::max(Rr, 1e-300);
             slack += rep * (1 + 1 / std::fabs((double)nq)); slackg += rep; }
-          c.obs(grp + ": Reverse k,gamma vs Forward k,gamma, difference / tolerance", std::max(ek2 / slack, eg2 / slackg), wit);
+          M.obs(c, grp + ": Reverse k,gamma vs Forward k,gamma, difference / tolerance", std::max(ek2 / slack, eg2 / slackg), wit);
           if (!(ek2 <= slack && eg2 <= slackg)) M.viol(c, "law", "reverse-scale-convergence", cls, J(wit).f("k", k).f("k2", k2).f("gamma", g).f("gamma2", g2).f("tol_rel", slack));
         }
       }
@@ -440,15 +471,16 @@ static PtRes check_point(Ctx& c, const Model& M, double lat, double lon0, double
     double kn = M.conformal() ? k : 1 / k, nz = 32 * EPS * (std::fabs(x) + std::fabs(y));
     double tE = TOL_FD + nz / (k * rp * hx * DEG), tN = TOL_FD + nz / (kn * rm * hl * DEG);
     if (tE > 1e-6 || tN > 1e-6) { c.event(M.pname() + ": finite-difference Jacobian skipped (round-off of the differenced outputs > 1e-6)"); R.ok = true; return R; }
-    c.obs(grp + ": FD Jacobian E-W stretch vs k, relative error / tolerance [2e-9 + round-off]", e1 / tE, wit);
-    c.obs(grp + ": FD Jacobian N-S stretch vs " + (M.conformal() ? "k" : "1/k") + ", relative error / tolerance [2e-9 + round-off]", e2 / tN, wit);
-    c.obs(grp + ": FD Jacobian rotation vs gamma" + (M.conformal() ? "" : " and |det-1|") + " [rad] / tolerance [2e-9 + round-off]", e3 / (tE + tN), wit);
+    M.obs(c, grp + ": FD Jacobian E-W stretch vs k, relative error / tolerance [2e-9 + round-off]", e1 / tE, wit);
+    M.obs(c, grp + ": FD Jacobian N-S stretch vs " + (M.conformal() ? "k" : "1/k") + ", relative error / tolerance [2e-9 + round-off]", e2 / tN, wit);
+    M.obs(c, grp + ": FD Jacobian rotation vs gamma" + (M.conformal() ? "" : " and |det-1|") + " [rad] / tolerance [2e-9 + round-off]", e3 / (tE + tN), wit);
     c.event(M.pname() + ": finite-difference Jacobian evaluations");
     J wj = J(wit).f("k", k).f("gamma", g).f("E_x", Ex).f("E_y", Ey).f("N_x", Nx).f("N_y", Ny).f("det", det).f("tolE", tE).f("tolN", tN);
     if (!(e1 <= tE)) M.viol(c, "law", "jacobian-eastwest-scale", cls, wj);
     if (!(e2 <= tN)) M.viol(c, "law", M.conformal() ? "jacobian-northsouth-scale" : "jacobian-northsouth-reciprocal-scale", cls, wj);
     if (!(e3 <= tE + tN)) M.viol(c, "law", M.conformal() ? "jacobian-rotation" : "jacobian-rotation-or-area", cls, wj);
   }
+  scope.panics(c, cls, wit);
   R.ok = true;
   return R;
 }
@@ -496,8 +528,8 @@ static void check_config(Ctx& c, const Model& M) {
   bool doc = in_doc_domain(M);
   double el = (double)fabsq((Q)lat0 - rl0), ek = (double)(fabsq((Q)k0 - rk0) / rk0);
   std::string dom = doc ? "" : " (outside documented domain: not judged)";
-  c.obs(grp + ": OriginLatitude vs REF latitude of minimum scale [deg; tol 1.8e-13]" + dom, el, wit);
-  c.obs(grp + ": CentralScale vs REF scale there, relative [tol 2.8e-14]" + dom, ek, wit);
+  M.obs(c, grp + ": OriginLatitude vs REF latitude of minimum scale [deg; tol 1.8e-13]" + dom, el, wit);
+  M.obs(c, grp + ": CentralScale vs REF scale there, relative [tol 2.8e-14]" + dom, ek, wit);
   if (c.only) std::fprintf(stderr, "CFG lat0=%.17g ref=%.17g  k0=%.17g ref=%.17g doc=%d\n", lat0, (double)rl0, k0, (double)rk0, (int)doc);
   if (doc) {
     if (!(el <= TOL_LAT0_DEG * M.eccfac())) M.viol(c, "oracle", "origin-latitude", cls, J(wit).f("got", lat0).f("ref", (double)rl0).f("err_deg", el));
@@ -515,7 +547,7 @@ static void check_config(Ctx& c, const Model& M) {
       double x, y, g, k; M.fwd(0, sl, 0, x, y, g, k);
       PtScope scope(M, ps, x, y);
       double e = std::fabs(k / M.k1 - 1) - (M.pk == P_ALB ? 2 * std::min(albers_kappa(M, ps), 64.0) * EPS : 0);
-      c.obs(grp + ": k on a standard parallel vs k1, relative [units of 10nm/a_WGS84; tol " + std::to_string((int)KS) + "]", e / (TOL_REL / KS), J(wit).f("stdlat", sl));
+      M.obs(c, grp + ": k on a standard parallel vs k1, relative [units of 10nm/a_WGS84; tol " + std::to_string((int)KS) + "]", e / (TOL_REL / KS), J(wit).f("stdlat", sl));
       if (!(e <= M.tolrel())) M.viol(c, "law", "standard-parallel-scale", cls, J(wit).f("stdlat", sl).f("k", k).f("k1", M.k1));
     }
   }
@@ -581,7 +613,8 @@ static void check_reverse_xy(Ctx& c, const Model& M, double lon0, double x, doub
       return;
     }
   }
-  if (fabsq(lamx) > refp::PIq) c.event(M.pname() + ": Reverse of (x,y) whose longitude difference exceeds 180 deg (wrapped)");
+  bool wrapped = fabsq(lamx) > refp::PIq;
+  if (wrapped) c.event(M.pname() + ": Reverse of (x,y) whose longitude difference exceeds 180 deg (wrapped; judged for range, longitude mod 360, k and gamma only)");
   Out o = M.rfwd(p, lamx);
   if (!(finiteq(o.k) && o.k > 0 && o.k <= KMAX && finiteq(o.x) && finiteq(o.y))) { c.event(M.pname() + ": Reverse-xy results with REF scale > 1e8 (not judged)"); return; }
   // arbitrary (x,y) may be far from the origin: an error equivalent to 16 eps of the given coordinates is backward error
@@ -592,9 +625,11 @@ static void check_reverse_xy(Ctx& c, const Model& M, double lon0, double x, doub
   // the longitude difference is formed in degrees before it is reduced: its representation (theta/n with its roundings: 32 ulp allowed) is a floor when it wraps
   double lamdeg = std::fabs((double)(lamx / refp::DEGq)), ulplam = std::nextafter(lamdeg, HUGE_VAL) - lamdeg;
   double dl = std::max(0.0, std::fabs((double)remainderq((Q)lon - ((Q)lon0 + lamx / refp::DEGq), 360)) - (lamdeg > 180 ? 32 * ulplam : 0)) * DEG, gl = (double)M.E.r_par(p) * std::fabs(dl);
+  if (fabsq(lamx) > 20 * refp::PIq) gl = 0;        // more than ten turns: the longitude modulo 360 is not meaningful either
+  if (wrapped) ge = 0;       // lat is then encoded in a relative change ~ eps of rho = a k/(n m): not a property of the principal image
   double err = std::hypot(ge, gl);
   if (c.only) std::fprintf(stderr, "REVXY ge=%.3g gl=%.3g lamdeg=%.17g ulplam=%.3g tol=%.3g k=%.6g\n", ge, gl, lamdeg, ulplam, tol, (double)o.k);
-  c.obs(grp + ": REF-Forward(Reverse(x,y)) vs (x,y), ground distance / tolerance", err / tol, wit);
+  M.obs(c, grp + ": REF-Forward(Reverse(x,y)) vs (x,y), ground distance / tolerance", err / tol, wit);
   if (!(err <= tol)) M.viol(c, "oracle", "reverse-xy", cls, J(wit).f("lat", lat).f("lon", lon).f("ref_x_of_result", (double)o.x).f("ref_y_of_result", (double)o.y).f("ground_err_nm_wgs84", M.nm(err)).f("tol_nm_wgs84", M.nm(tol)));
   double ek = (double)(fabsq((Q)k - o.k) / o.k), eg = (double)fabsq(remainderq((Q)g - o.gamma / refp::DEGq, 360)) * DEG;
   eg = std::min(eg, std::fabs(eg - 2 * M_PI));
@@ -609,7 +644,8 @@ static void check_reverse_xy(Ctx& c, const Model& M, double lon0, double x, doub
     slackg += TOL_LAT0_DEG * DEG * M.eccfac() * M.e.a * (double)(M.pk == P_LCC ? M.rl->k0 : M.ra->k0) / (double)R;
   if (n != 0 && finiteq(M.rrho0()) && R > 0) slackg += 8 * EPS * (double)((fabsq(M.rrho0()) + fabsq((Q)x) + fabsq((Q)y)) / R);
   if (c.only) std::fprintf(stderr, "REVXY ek=%.3g (slack %.3g) eg=%.3g (slack %.3g)\n", ek, slackk, eg, slackg);
-  c.obs(grp + ": Reverse(x,y) k,gamma vs REF, error / tolerance", std::max(ek / slackk, eg / slackg), wit);
+  M.obs(c, grp + ": Reverse(x,y) k,gamma vs REF, error / tolerance", std::max(ek / slackk, eg / slackg), wit);
+  scope.panics(c, cls, wit);
   if (!(ek <= slackk && eg <= slackg)) M.viol(c, "oracle", "reverse-xy-scale-convergence", cls, J(wit).f("k", k).f("ref_k", (double)o.k).f("gamma", g).f("ref_gamma", (double)(o.gamma / refp::DEGq)));
 }
 
@@ -651,6 +687,7 @@ static bool build_checked(Ctx& c, Model& M, PK pk, const EllCfg& e, const ParCfg
     return false;
   }
   if (rc != 0) { c.count(cls, M.h); c.viol(std::string("contract:C11/") + PKN[pk] + "/admissible-parameters-rejected/ctor-form" + std::to_string(par.form), cls, J(M.json()).str("what", what)); return false; }
+  if (M.ctor_panic) M.viol(c, "hook", "convergence-failure-in-constructor", cls, J(M.json()).u("panics", M.ctor_panic));
   return true;
 }
 
@@ -660,7 +697,6 @@ static void exercise(Ctx& c, Model& M, int nrand, int nxy) {
   run_reverse_xy(c, M, nxy);
 }
 
-static const uint64_t NPAR_ = 0;   // (catalogue size is taken at run time)
 static uint64_t ndir(PK pk) { return pk == P_PS ? (uint64_t)NF * 2 * 4 * 2 : (uint64_t)catalogue().size() * NF * 2 * 4; }
 
 static void sec_dir(Ctx& c, uint64_t idx, PK pk) {
@@ -685,7 +721,7 @@ static void sec_rnd(Ctx& c, uint64_t, PK pk) {
 // more extreme ellipsoids than the property's working range of Math::tauf (own key suffix)
 static void sec_extreme(Ctx& c, uint64_t idx) {
   Model M; vh::Rng& r = c.rng; PK pk = (PK)(idx % 3);
-  EllCfg e = mk_ell(r.pick(A_LADDER), r.coin() ? r.pick(F_EXTREME) : (r.coin() ? r.uniform(0.8, 0.97) : r.uniform(-5, -2)));
+  EllCfg e = mk_ell(r.pick(A_LADDER), r.coin() ? r.pick(F_EXTREME) : (r.coin() ? r.uniform(0.55, 0.97) : r.uniform(-5, -2)));
   ParCfg par = pk == P_PS ? ParCfg{} : gen_par(r);
   if (!build_checked(c, M, pk, e, par, gen_k1(r), r.coin())) return;
   exercise(c, M, 6, 3);
@@ -710,7 +746,7 @@ static void compare_models(Ctx& c, const Model& A, const Model& B, const char* w
     double e = std::max(ge / A.tolm(), std::max(std::fabs(ka / kb - 1), std::fabs(std::remainder(ga - gb, 360.0)) * DEG / (1 + std::fabs(ga) * DEG)) / A.tolrel());
     if (e > worst) { worst = e; ww = J().f("lat", lat).f("dlon", dl).f("xA", xa).f("yA", ya).f("xB", xb).f("yB", yb).f("kA", ka).f("kB", kb).f("gA", ga).f("gB", gb); }
   }
-  c.obs(A.pname() + " " + A.e.grp + ": equivalent constructors, 64-point lattice, worst error / tolerance", worst, J().obj("A", A.json()).obj("B", B.json()));
+  A.obs(c, A.pname() + " " + A.e.grp + ": equivalent constructors, 64-point lattice, worst error / tolerance", worst, J().obj("A", A.json()).obj("B", B.json()));
   if (!(worst <= 1)) A.viol(c, "law", std::string("constructor-equivalence/") + what, cls, J(ww).obj("A", A.json()).obj("B", B.json()).f("lon0", lon0));
 }
 static double rd(Q v) { return (double)v; }
@@ -773,9 +809,10 @@ static void sec_setscale(Ctx& c, uint64_t idx) {
   catch (const GeographicErr&) { threw = true; }
   (void)may_throw;
   if (must_throw) { c.event(M.pname() + ": SetScale at an inadmissible latitude (documented to throw)");
-    if (!threw) c.viol(std::string("contract:C11/") + PKN[pk] + "/setscale-inadmissible-latitude-accepted", cls, wit); return; }
+    if (!threw) c.viol(std::string("contract:C11/") + PKN[pk] + "/setscale-inadmissible-latitude-accepted", cls, wit);
+    return; }
   if (threw) { c.viol(std::string("contract:C11/") + PKN[pk] + "/setscale-admissible-latitude-rejected", cls, wit); return; }
-  if (!(finiteq(kold) && kold > 0 && kold < 1e6 * (Q)k1 && kold > 1e-6 * (Q)k1)) { c.event(M.pname() + ": SetScale where the old scale is extreme (not judged)"); return; }
+  if (!(finiteq(kold) && kold > 0 && kold < 1e3 * (Q)k1 && kold > 1e-3 * (Q)k1 && ks / (double)kold < 1e2 && ks / (double)kold > 1e-2)) { c.event(M.pname() + ": SetScale where the old scale is extreme or the rescaling exceeds 1e+-2 (not judged)"); return; }
   // new reference: the scale is linear in k1
   double cs = pk == P_LCC ? M.lccp->CentralScale() : pk == P_ALB ? M.albp->CentralScale() : M.psp->CentralScale();
   // the new reference uses the library's own ratio of central scales (so that the point monitors below judge the
@@ -794,13 +831,13 @@ static void sec_setscale(Ctx& c, uint64_t idx) {
     double e1 = std::fabs(k / ks - 1);
     // the old scale at lat enters the rescaling: same tolerance model as Forward k (|ln k/k0| eps, Albers kappa eps)
     tss = M.tolrel() * (2 + std::fabs((double)logq(kold / kold0))) + (pk == P_ALB ? 4 * std::min(albers_kappa(M, p), 64.0) * EPS : 0);
-    c.obs(M.pname() + " " + M.e.grp + ": scale after SetScale(lat,k) at lat vs k, relative [units of 10nm/a_WGS84; tol " + std::to_string((int)KS) + "]", e1 / (TOL_REL / KS), wit);
+    M.obs(c, M.pname() + " " + M.e.grp + ": scale after SetScale(lat,k) at lat vs k, relative [units of 10nm/a_WGS84; tol " + std::to_string((int)KS) + "]", e1 / (TOL_REL / KS), wit);
     if (!(e1 <= tss)) M.viol(c, "law", "setscale-requested-scale", cls, J(wit).f("k_at_lat", k));
   }
   // the ratio of central scales applied by SetScale vs the ideal ks/kold
   {
     double er = (double)fabsq(k1n / k1ideal - 1);
-    c.obs(M.pname() + " " + M.e.grp + ": SetScale: applied rescaling vs k/k_old(lat), relative error / tolerance", er / tss, wit);
+    M.obs(c, M.pname() + " " + M.e.grp + ": SetScale: applied rescaling vs k/k_old(lat), relative error / tolerance", er / tss, wit);
     if (!(er <= tss)) M.viol(c, "law", "setscale-central-scale", cls, J(wit).f("central_scale_before", cs0).f("central_scale_after", cs).f("ideal_ratio", (double)(k1ideal / (Q)k1)));
   }
   // and the object is still a consistent projection (all point monitors against the rescaled reference)
@@ -889,7 +926,7 @@ static void sec_statics(Ctx& c, uint64_t idx) {
     PtScope scope(M, p, x, y);
     double ge = ground_err(M, (double)((Q)x - o.x), (double)((Q)y - o.y), o.k, o.gamma, x, y);
     c.count(std::string("statics/") + nm[which] + "/vs-special-closed-form", vh::hmix(vh::hmix(M.h, lat), lon));
-    c.obs(std::string(nm[which]) + " vs special-case closed form, ground distance [nm]", M.nm(ge), J().f("lat", lat).f("lon0", lon0).f("lon", lon));
+    M.obs(c, std::string(nm[which]) + " vs special-case closed form, ground distance [nm]", M.nm(ge), J().f("lat", lat).f("lon0", lon0).f("lon", lon));
     if (!(ge <= M.tolm())) c.viol(std::string("oracle:C11/") + nm[which] + "/forward-vs-special-closed-form", M.ccls, J().f("lat", lat).f("lon0", lon0).f("lon", lon).f("x", x).f("y", y).f("ref_x", (double)o.x).f("ref_y", (double)o.y));
   }
 }
